@@ -318,7 +318,8 @@ def check_case(vendor, lst, scheme="", checks=("roundtrip", "fixpoint", "device"
             if "roundtrip" in checks:
                 got = to_list(back) if err is None else err
                 out.append(("roundtrip", got == lst, lst, dict(text=text, parsed=got)))
-            if "fixpoint" in checks:
+            if "fixpoint" in checks and not ("lazy" in checks and out and out[-1][0] == "roundtrip" and out[-1][1]):
+                # ("lazy": an equal tree renders to the equal text, so the fixed point only needs evaluation after a mismatch)
                 if err is None:
                     try:
                         again = f.join(back)
@@ -374,7 +375,7 @@ def cases(tier, seed):
                     for scheme in schemes(vendor):
                         yield vendor, scheme, shape, scheme in ("A0", "B")
                 else:
-                    yield vendor, "A0", shape, False
+                    yield vendor, "A0", shape, None
     rnd = random.Random(seed * 7919 + 4)
     for n in range(b["nrandom"]):
         shape = random_shape(rnd, rnd.randint(2, 6), rnd.randint(2, 5), [rnd.randint(4, 40)])
@@ -395,7 +396,12 @@ def run(tier="quick", seed=0, part=0, nparts=1):
         if i % nparts != part:
             continue
         lst = label(shape, vendor, scheme)
-        checks = ("roundtrip", "fixpoint", "device") if (with_device and not scheme.startswith("K:")) else ("roundtrip", "fixpoint")
+        if with_device is None:
+            checks = ("roundtrip", "fixpoint", "lazy")
+        elif with_device and not scheme.startswith("K:"):
+            checks = ("roundtrip", "fixpoint", "device")
+        else:
+            checks = ("roundtrip", "fixpoint")
         ev += 1
         if depth_of(lst) >= 2:
             nontrivial.add(hashlib.md5(json.dumps([vendor, lst]).encode()).hexdigest()[:12])
@@ -420,7 +426,8 @@ def run(tier="quick", seed=0, part=0, nparts=1):
                      "round trip, join fixed point, and (for the plain labellings) 2-4 device style texts written by a reference "
                      "renderer (separator lines, end-of-line remarks, annotations, configure{} wrapper, /path sections); non-trivial = nesting depth >= 2; distinct by (vendor, tree)"
                      % (b["depth"], b["width"], b["nodes"],
-                        " and every shape of depth <= 3 / <= 3 rows per level without the node cap" if b["full3"] else "",
+                        " and every shape of depth <= 3 / <= 3 rows per level without the node cap (all labellings up to 13 nodes, one "
+                        "beyond, there the fixed point is evaluated only after a round trip mismatch)" if b["full3"] else "",
                         b["nrandom"]),
                 bound="depth<=%d, <=%d rows/level, <=%d nodes%s; random to 40 nodes"
                       % (b["depth"], b["width"], b["nodes"], "; depth<=3 uncapped" if b["full3"] else ""))
